@@ -9,20 +9,20 @@ REGISTRY = {}
 
 # property -> (profiles [(name, n_quick, n_thorough)], MC config stem or None)
 CORE = {
-    'C01': dict(profiles=[('lifecycle', 350, 6000), ('overlap', 250, 3000), ('sequences', 200, 3000), ('forbid', 100, 1000)], mc='MC_C01'),
-    'C02': dict(profiles=[('overlap', 500, 8000), ('sequences', 150, 2000), ('lifecycle', 100, 1000)], mc='MC_C02'),
-    'C03': dict(profiles=[('bounds', 500, 8000), ('overlap', 100, 1000)], mc='MC_C03'),
-    'C04': dict(profiles=[('teardown', 500, 8000), ('bounds', 100, 1000)], mc='MC_C04'),
-    'C05': dict(profiles=[('sequences', 600, 10000), ('overlap', 100, 2000)], mc=['MC_C05', 'MC_C05b']),
-    'C06': dict(profiles=[('sequences', 600, 10000)], mc='MC_C06'),
-    'C07': dict(profiles=[('forbid', 500, 8000), ('lifecycle', 100, 1000)], mc='MC_C07'),
-    'C08': dict(profiles=[('clauses', 500, 8000)], mc='MC_C08'),
-    'C13': dict(profiles=[('deathwatch', 600, 10000), ('sequences', 100, 2000)], mc='MC_C13'),
-    'C14': dict(profiles=[('teardown_all', 600, 12000), ('deathwatch', 100, 2000)], mc='MC_C14'),
-    'C15': dict(profiles=[('lifecycle', 150, 2000), ('bounds', 100, 2000), ('sequences', 150, 2000), ('forbid', 100, 2000),
-                          ('teardown', 100, 2000), ('deathwatch', 100, 2000)], mc='MC_C15'),
-    'C16': dict(profiles=[('reporters', 500, 8000), ('overlap', 100, 1000)], mc='MC_C16'),
-    'C17': dict(profiles=[('trace', 500, 8000)], mc='MC_C17'),
+    'C01': dict(profiles=[('lifecycle', 350, 18000), ('overlap', 250, 9000), ('sequences', 200, 9000), ('forbid', 100, 3000)], mc='MC_C01'),
+    'C02': dict(profiles=[('overlap', 500, 24000), ('sequences', 150, 6000), ('lifecycle', 100, 3000)], mc='MC_C02'),
+    'C03': dict(profiles=[('bounds', 500, 24000), ('overlap', 100, 3000)], mc='MC_C03'),
+    'C04': dict(profiles=[('teardown', 500, 24000), ('bounds', 100, 3000)], mc='MC_C04'),
+    'C05': dict(profiles=[('sequences', 600, 30000), ('overlap', 100, 6000)], mc=['MC_C05', 'MC_C05b']),
+    'C06': dict(profiles=[('sequences', 600, 30000)], mc='MC_C06'),
+    'C07': dict(profiles=[('forbid', 500, 24000), ('lifecycle', 100, 3000)], mc='MC_C07'),
+    'C08': dict(profiles=[('clauses', 500, 24000)], mc='MC_C08'),
+    'C13': dict(profiles=[('deathwatch', 600, 30000), ('sequences', 100, 6000)], mc='MC_C13'),
+    'C14': dict(profiles=[('teardown_all', 600, 36000), ('deathwatch', 100, 6000)], mc='MC_C14'),
+    'C15': dict(profiles=[('lifecycle', 150, 6000), ('bounds', 100, 6000), ('sequences', 150, 6000), ('forbid', 100, 6000),
+                          ('teardown', 100, 6000), ('deathwatch', 100, 6000)], mc='MC_C15'),
+    'C16': dict(profiles=[('reporters', 500, 24000), ('overlap', 100, 3000)], mc='MC_C16'),
+    'C17': dict(profiles=[('trace', 500, 24000)], mc='MC_C17'),
 }
 
 ASSUMPTIONS_CORE = [
@@ -94,7 +94,7 @@ def run_core(prop, tier, seed, t0, cfgname='TraceCore.cfg'):
     mine = {p[0] for p in spec['profiles']}
     for name in sorted(gen_scripts.PROFILES):
         if name not in mine:
-            segs += gen_scripts.gen(name, 40 if tier == 'quick' else 400, seed + 7, prefix='mix-' + name)
+            segs += gen_scripts.gen(name, 40 if tier == 'quick' else 1000, seed + 7, prefix='mix-' + name)
     segs += fixed_segments(prop)
     exhaustive_note = []
     for fn in gen_scripts.EXHAUSTIVE.get(prop, []):
@@ -179,6 +179,14 @@ def run_core(prop, tier, seed, t0, cfgname='TraceCore.cfg'):
         open(path, 'w').write(mc['output'])
         out_lines.append('VIOLATION property=%s replay=%s' % (prop, path))
         nviol += 1
+    # ---- C03: inductive invariant of the counting core, unbounded counts / bounds / history (Apalache)
+    apalache = None
+    if prop == 'C03':
+        apalache = run_apalache_ind(work)
+        if apalache.get('violated'):
+            p = os.path.join(lib.BUILD, 'replay'); os.makedirs(p, exist_ok=True)
+            path = os.path.join(p, 'C03-inductive-invariant.txt'); open(path, 'w').write(apalache['output'])
+            out_lines.append('VIOLATION property=C03 replay=%s' % path); nviol += 1
     for l in out_lines[:20]:
         print(l)
     # ---- evidence
@@ -197,6 +205,8 @@ def run_core(prop, tier, seed, t0, cfgname='TraceCore.cfg'):
                     % [p[0] for p in spec['profiles']],
                samples=samples, model_checking=mc.get('summary', {}), exhaustive=False,
                sanitizers='ASan+UBSan+LSan, TROMPELOEIL_SANITY_CHECKS', tree=lib.tree_hash())
+    if apalache:
+        cov['inductive_invariant'] = {k: v for k, v in apalache.items() if k != 'output'}
     if exhaustive_note:
         cov['exhaustive_subspaces'] = exhaustive_note
     if td_mc:
@@ -244,6 +254,30 @@ def teardown_segments(tier, seed):
         for i, ops in enumerate(scripts):
             out.append(('td-P%d-%d' % (pop, i), ops))
     return out, mc
+
+def run_apalache_ind(work):
+    """spec/apalache/CountInd.tla: Init => IndInv (length 0) and IndInv /\\ Next => IndInv' (length 1 from IndInv)"""
+    import subprocess
+    res = dict(tool='apalache-mc 0.58', spec='spec/apalache/CountInd.tla', obligations=2, discharged=0)
+    src = os.path.join(lib.SPEC, 'apalache', 'CountInd.tla')
+    d = os.path.join(work, 'apalache'); os.makedirs(d, exist_ok=True)
+    shutil.copy(src, d)
+    for init, length in (('Init', 0), ('IndInv', 1)):
+        try:
+            p = subprocess.run(['timeout', '600', 'apalache-mc', 'check', '--cinit=CInit', '--init=' + init, '--inv=IndInv', '--length=%d' % length,
+                                '--out-dir=' + os.path.join(d, 'out'), 'CountInd.tla'], cwd=d, stdout=subprocess.PIPE, stderr=subprocess.STDOUT, text=True)
+        except Exception as e:
+            res['note'] = 'apalache could not be run: %s' % e
+            return res
+        if 'The outcome is: NoError' in p.stdout:
+            res['discharged'] += 1
+        elif 'The outcome is: Error' in p.stdout:
+            res['violated'] = True; res['output'] = p.stdout[-6000:]
+            return res
+        else:
+            res['note'] = 'apalache did not finish (%s): not counted' % p.stdout[-200:].replace('\n', ' ')
+            return res
+    return res
 
 def fixed_segments(prop):
     """fixed witness scripts: harness/witness/<prop>*.script"""
@@ -552,7 +586,7 @@ def run_coro(prop, tier, seed, t0):
             print('KNOWN-FINDING: property=C20 %s (%s)' % (kf['id'], kf['what']))
     d = lib.build_coro(tuple(sorted(skip)))
     # 2. conformance
-    nseg = 600 if tier == 'quick' else 12000
+    nseg = 600 if tier == 'quick' else 40000
     segs = gen_scripts.gen_coro_segments(nseg, seed, skip) + fixed_segments('C20')
     by_id = dict(segs)
     nch = lib.NCPU
@@ -711,7 +745,7 @@ def run_conc(prop, tier, seed, t0):
     shutil.rmtree(work, ignore_errors=True); os.makedirs(work)
     rp = os.path.join(lib.BUILD, 'replay'); os.makedirs(rp, exist_ok=True)
     d = lib.build_conc()
-    nseg = 400 if tier == 'quick' else 20000
+    nseg = 400 if tier == 'quick' else 60000
     segs = gen_scripts.gen_conc_segments(nseg, seed) + fixed_conc_segments()
     by_id = dict(segs)
     nch = lib.NCPU // 2          # each driver process runs up to 3 busy threads
